@@ -233,6 +233,8 @@ def make_input_plan(T, variant, k=3, **kw):
         return ctx, NoFieldInput(ctx)
     if variant == "nested":
         return ctx, NestedInput(ctx)
+    if variant == "twobase":
+        return ctx, TwoBaseInput(ctx)
     return ctx, HistInput(ctx, k, hard=kw.get("hard", False))
 
 
@@ -449,21 +451,26 @@ NONMAP = [5, None, "abc", [1], 1.5]
 
 
 class NestedInput(symval.Node):
-    """outer tag in {poly, a, zz, absent}, inner tag in {tri, zz, absent}; whether Tri exists before the first call"""
+    """outer tag in {poly, a, zz, absent}, inner tag in {a (Tri's), zz, absent}; when the first call happens: never before the
+    lookup (0), after the nested root exists but before Tri (1), before the nested root itself is defined (2); whether the
+    lookup goes through the outer root or straight through the nested root's own from_dict"""
 
     def __init__(self, ctx):
         self.outer = ctx.sel(4)
         self.inner = ctx.sel(3)
-        self.late = ctx.new("b", "bool")
+        self.late = ctx.sel(3)
+        self.direct = ctx.new("b", "bool")
         self.x = ctx.new("i", "int")
         self.root = ctx.sel(len(NONMAP) + 1)  # 0: a dict as described above; k > 0: the non-mapping root NONMAP[k - 1]
 
     def make(self, env):
-        return pick(env[self.outer], 4), pick(env[self.inner], 3), bool(env[self.late]), pick(env[self.root], len(NONMAP) + 1)
+        return (pick(env[self.outer], 4), pick(env[self.inner], 3), pick(env[self.late], 3), pick(env[self.root], len(NONMAP) + 1),
+                bool(env[self.direct]))
 
 
 def build_nested(style, late):
-    """QBase(type) <- QA('a'), QBase <- QPoly('poly', its own Config discriminator on 'kind') <- QTri(kind 'tri')"""
+    """QBase(type) <- QA('a'), QBase <- QPoly('poly', its own Config discriminator on 'kind') <- QTri(kind 'a'): the inner
+    leaf carries the same tag VALUE as the outer sibling QA, so registries that are not kept apart show"""
     ns = lambda q, **kw: dict({"__module__": __name__, "__qualname__": q}, **kw)
     mb = (DataClassDictMixin,)
     disc = Discriminator(field="type", include_subtypes=True)
@@ -475,8 +482,6 @@ def build_nested(style, late):
     globals()["QBase"] = Base
     A = dataclasses.make_dataclass("QA", [("type", str, F(default="a"))], bases=(Base,), namespace=ns("QA"))
     globals()["QA"] = A
-    Poly = dataclasses.make_dataclass("QPoly", [("type", str, F(default="poly"))], bases=(Base,), namespace=ns("QPoly", Config=cfg_k))
-    globals()["QPoly"] = Poly
     if style == "config":
         dec = Base.from_dict
     elif style == "annotated":
@@ -485,26 +490,38 @@ def build_nested(style, late):
         dec = lambda d: H.from_dict({"v": d}).v
     else:
         dec = BasicDecoder(typing.Annotated[Base, disc]).decode
-    if late:
+
+    def warm():
         try:
             dec({"type": "a", "x": 1})
         except Exception:
             pass
-    Tri = dataclasses.make_dataclass("QTri", [("kind", str, F(default="tri"))], bases=(Poly,), namespace=ns("QTri"))
+
+    if late == 2:
+        warm()  # the outer registry is filled before the nested root exists
+    Poly = dataclasses.make_dataclass("QPoly", [("type", str, F(default="poly"))], bases=(Base,), namespace=ns("QPoly", Config=cfg_k))
+    globals()["QPoly"] = Poly
+    if late == 1:
+        warm()
+    Tri = dataclasses.make_dataclass("QTri", [("kind", str, F(default="a"))], bases=(Poly,), namespace=ns("QTri"))
     globals()["QTri"] = Tri
-    return {"A": A, "Tri": Tri}, dec
+    return {"A": A, "Tri": Tri, "Poly": Poly}, dec
 
 
 def nested_main(S, env):
-    outer, inner, late, root = S.node.make(env)
+    outer, inner, late, root, direct = S.node.make(env)
     with notrace():
         classes, dec = build_nested(S.fam_args["style"], late)
         d = {"x": 5}
         if outer < 3:
             d["type"] = ("poly", "a", "zz")[outer]
         if inner < 2:
-            d["kind"] = ("tri", "zz")[inner]
-        if outer == 3:
+            d["kind"] = ("a", "zz")[inner]
+        if direct:
+            # the nested root's own entry point: only its own discriminator matters
+            dec = classes["Poly"].from_dict
+            want = (classes["Tri"], "notfound", "missing")[inner]
+        elif outer == 3:
             want = "missing"
         elif outer == 2:
             want = "notfound"
@@ -525,15 +542,100 @@ def nested_main(S, env):
             return True
         if isinstance(want, type):
             if st != "ok" or type(r) is not want:
-                return fail("C12/nested-root:wrong-result", input=d, got=r, want=want.__name__, late=late)
+                return fail("C12/nested-root:wrong-result", input=d, got=r, want=want.__name__, late=late, direct=direct)
         else:
             exp = MissingDiscriminatorError if want == "missing" else SuitableVariantNotFoundError
             if st == "ok" or type(r) is not exp:
-                return fail("C12/nested-root:wrong-exception:%s-for-%s" % (type(r).__name__, want), input=d, got=r, late=late)
+                return fail("C12/nested-root:wrong-exception:%s-for-%s" % (type(r).__name__, want), input=d, got=r, late=late,
+                            direct=direct)
+        if not direct and not root:
+            # afterwards the outer root still resolves its own sibling
+            st2, r2 = call(dec, {"type": "a", "x": 2})
+            if st2 != "ok" or type(r2) is not classes["A"]:
+                return fail("C12/nested-root:outer-registry-polluted", got=r2, late=late)
+    return True
+
+
+# ------------------------------------------------------------------ one Discriminator object, two hierarchies
+TB_TAGS = ["v1", "sq", "dog", "zz"]
+
+
+class TwoBaseInput(symval.Node):
+    """tags at the two positions, and an earlier call (none / both 'v1' / ('sq', 'dog'))"""
+
+    def __init__(self, ctx):
+        self.t0 = ctx.sel(4)
+        self.t1 = ctx.sel(4)
+        self.warm = ctx.sel(3)
+        self.x = ctx.new("i", "int")
+
+    def make(self, env):
+        return pick(env[self.t0], 4), pick(env[self.t1], 4), pick(env[self.warm], 3)
+
+
+def build_twobase(style):
+    """Shape <- Circle('v1'), Square('sq'); Animal <- Cat('v1'), Dog('dog'); ONE Discriminator instance annotates both bases.
+    style: tuple (one field typed Tuple[Annotated[Shape, D], Annotated[Animal, D]]) | fields (two fields) | codec"""
+    ns = lambda q, **kw: dict({"__module__": __name__, "__qualname__": q}, **kw)
+    F = dataclasses.field
+    D = Discriminator(field="type", include_subtypes=True)
+    mk = lambda name, bases, tag=None: dataclasses.make_dataclass(
+        name, [("x", int, F(default=0))] if not tag else [], bases=bases, namespace=ns(name, **({"type": tag} if tag else {})))
+    cls = {}
+    cls["Shape"] = mk("TShape", ())
+    globals()["TShape"] = cls["Shape"]
+    cls["Animal"] = mk("TAnimal", ())
+    globals()["TAnimal"] = cls["Animal"]
+    for name, base, tag in (("Circle", "Shape", "v1"), ("Square", "Shape", "sq"), ("Cat", "Animal", "v1"), ("Dog", "Animal", "dog")):
+        cls[name] = mk("T" + name, (cls[base],), tag)
+        globals()["T" + name] = cls[name]
+    A0, A1 = typing.Annotated[cls["Shape"], D], typing.Annotated[cls["Animal"], D]
+    if style == "tuple":
+        H = dataclasses.make_dataclass("THolder", [("pair", typing.Tuple[A0, A1])], bases=(DataClassDictMixin,), namespace=ns("THolder"))
+        globals()["THolder"] = H
+        dec = lambda d0, d1: H.from_dict({"pair": [d0, d1]}).pair
+    elif style == "fields":
+        H = dataclasses.make_dataclass("THolder", [("s", A0), ("a", A1)], bases=(DataClassDictMixin,), namespace=ns("THolder"))
+        globals()["THolder"] = H
+
+        def dec(d0, d1):
+            h = H.from_dict({"s": d0, "a": d1})
+            return (h.s, h.a)
+    else:
+        dd = BasicDecoder(typing.Tuple[A0, A1]).decode
+        dec = lambda d0, d1: dd([d0, d1])
+    return cls, dec
+
+
+def twobase_main(S, env):
+    t0, t1, warm = S.node.make(env)
+    with notrace():
+        cls, dec = build_twobase(S.fam_args["style"])
+        if warm:
+            w = (("v1", "v1"), ("sq", "dog"))[warm - 1]
+            call(dec, {"type": w[0], "x": 1}, {"type": w[1], "x": 2})
+        want0 = {"v1": cls["Circle"], "sq": cls["Square"]}.get(TB_TAGS[t0])
+        want1 = {"v1": cls["Cat"], "dog": cls["Dog"]}.get(TB_TAGS[t1])
+        st, r = call(dec, {"type": TB_TAGS[t0], "x": 3}, {"type": TB_TAGS[t1], "x": 4})
+        if want0 is None or want1 is None:
+            if st == "ok":
+                return fail("C12/two-bases:accepted-foreign-tag", tags=(TB_TAGS[t0], TB_TAGS[t1]), got=r, warm=warm)
+            e = r
+            while isinstance(e, InvalidFieldValue) and (e.__context__ or e.__cause__):
+                e = e.__context__ or e.__cause__
+            if type(e) is not SuitableVariantNotFoundError:
+                return fail("C12/two-bases:wrong-exception:%s" % type(e).__name__, tags=(TB_TAGS[t0], TB_TAGS[t1]), warm=warm)
+            return True
+        if st != "ok":
+            return fail("C12/two-bases:raised:%s" % type(r).__name__, tags=(TB_TAGS[t0], TB_TAGS[t1]), warm=warm, exc=r)
+        if type(r[0]) is not want0 or type(r[1]) is not want1 or r[0].x != 3 or r[1].x != 4:
+            return fail("C12/two-bases:wrong-class", tags=(TB_TAGS[t0], TB_TAGS[t1]), got=r, warm=warm)
     return True
 
 
 def main(S, env):
+    if S.variant == "twobase":
+        return twobase_main(S, env)
     if S.variant == "nested":
         return nested_main(S, env)
     if S.variant == "nofield":
@@ -542,9 +644,14 @@ def main(S, env):
 
 
 def twin(S, env):
+    if S.variant == "twobase":
+        t0, t1, warm = S.node.make(env)
+        if not (t0 == 1 and t1 == 0 and warm == 2):
+            return True
+        return not main(S, env)
     if S.variant == "nested":
-        outer, inner, late, root = S.node.make(env)
-        if not (outer == 0 and inner == 0 and late and root == 0):
+        outer, inner, late, root, direct = S.node.make(env)
+        if not (outer == 0 and inner == 0 and late == 2 and root == 0 and not direct):
             return True
         return not main(S, env)
     if S.variant == "nofield":
